@@ -2,15 +2,17 @@
 # harvest_seeded.py <ID>...: copies a sub-agent's seeded change from /tmp/wt/<ID>.out into /verif/seeded/<ID>/ once
 # /tmp/confirm_<ID>.log says CONFIRMED, and records my own confirmation and the check's verdict on it in meta.json
 import json, os, shutil, sys, re
+ROOT = os.environ.get("SEEDROOT", "/tmp/wt")
+SUF = os.environ.get("SEEDSUFFIX", "")
 for pid in sys.argv[1:]:
-    src = f"/tmp/wt/{pid}.out"
-    log = open(f"/tmp/confirm_{pid}.log").read()
+    src = f"{ROOT}/{pid}.out"
+    log = open(f"/tmp/confirm_{pid}{SUF}.log").read()
     if f"CONFIRMED {pid}" not in log or "NOT-CONFIRMED" in log:
         print(pid, "not confirmed, skipped"); continue
-    det = open(f"/tmp/det_{pid}.log").read()
+    det = open(f"/tmp/det_{pid}{SUF}.log").read()
     viol = [l.strip() for l in det.splitlines() if l.startswith("VIOLATION")]
     summ = [l.strip() for l in det.splitlines() if l.startswith(pid + ":")]
-    dst = f"/verif/seeded/{pid}"
+    dst = f"/verif/seeded/{pid}{SUF}"
     os.makedirs(dst, exist_ok=True)
     shutil.copy(f"{src}/patch.diff", f"{dst}/patch.diff")
     shutil.copy(f"{src}/demo_test.go", f"{dst}/demo_test.go")
@@ -21,10 +23,10 @@ for pid in sys.argv[1:]:
         "log": [l for l in log.splitlines() if l.strip()],
     }
     meta["check_verdict"] = {"command": f"./check {pid}", "exit": 1 if viol else 0, "violations": viol, "summary": summ}
-    note = f"/tmp/seednote_{pid}.txt"
+    note = f"/tmp/seednote_{pid}{SUF}.txt"
     if os.path.exists(note):
         meta["history"] = open(note).read().strip()
-    meta["apply"] = "git -C /repo apply /verif/seeded/%s/patch.diff ; undo: git -C /repo checkout -- ." % pid
+    meta["apply"] = "git -C /repo apply /verif/seeded/%s/patch.diff ; undo: git -C /repo checkout -- ." % (pid + SUF)
     meta["demo"] = "copy demo_test.go into %s as zz_seed_demo_test.go and run go test -vet=off -run 'Demo|Seed|TestC[0-9]+' there" % meta.get("demo_package_dir", "?")
     json.dump(meta, open(f"{dst}/meta.json", "w"), indent=1)
     print(pid, "harvested:", len(viol), "violation line(s)")
